@@ -15,14 +15,14 @@ LOOSE_TAGS = {"wake", "wpad", "spec", "pow"}
 EXACT_TAGS = {"undefined", "error", "ints", "sched", "txt"}
 
 
-def fclose(a, b, linescale, loose=False):
+def fclose(a, b, linescale, loose=False, rel=1e-5):
     if a == b:
         return True
     if loose:
         fa, fb = h2f(a), h2f(b)
         if math.isnan(fa) or math.isnan(fb) or math.isinf(fa) or math.isinf(fb):
             return (math.isnan(fa) and math.isnan(fb)) or fa == fb
-        return abs(fa - fb) <= 2e-5 * linescale + 1e-5 * max(abs(fa), abs(fb))
+        return abs(fa - fb) <= 2e-5 * linescale + rel * max(abs(fa), abs(fb))
     fa, fb = h2f(a), h2f(b)
     if math.isnan(fa) and math.isnan(fb):
         return True
@@ -64,7 +64,9 @@ def compare_line(x, y):
     drift = 0
     for i in fpos:
         if xs[i] != ys[i]:
-            if fclose(xs[i], ys[i], scale, tag in LOOSE_TAGS):
+            # `pow` is a binary32 sum of up to nmax spectrum samples whose small entries carry the absolute rounding error of
+            # the float FFT: judged relative to itself it needs a wider margin than the lines it is summed from
+            if fclose(xs[i], ys[i], scale, tag in LOOSE_TAGS, 3e-4 if tag == "pow" else 1e-5):
                 drift += 1
             else:
                 return False, drift, "%s value token %d: impl %s (%g) model %s (%g)" % (
@@ -99,9 +101,31 @@ def compare(A, B):
 
 def run_correspondence(chk, harness, optexts, tag):
     """optexts: {caseid: optext}. Returns (A, B, mismatches, drift, sanitizer_text)."""
-    txt = "".join(optexts.values())
-    a, b, rc, err, rc2, err2 = C.run_both(harness, txt, "%s_%s" % (chk.pid, tag))
-    A, B = C.split_cases(a), C.split_cases(b)
+    ids = list(optexts)
+    # large sets are split into chunks that run side by side (cases are independent: each one resets the static sizes)
+    nchunk = 1 if len(ids) <= 48 else min(14, (len(ids) + 23) // 24)
+    chunks = [ids[i::nchunk] for i in range(nchunk)]
+
+    def one(chunk):
+        return C.run_both(harness, "".join(optexts[i] for i in chunk), "%s_%s" % (chk.pid, tag))
+    if nchunk == 1:
+        outs = [one(chunks[0])]
+    else:
+        from concurrent.futures import ThreadPoolExecutor
+        with ThreadPoolExecutor(nchunk) as ex:
+            outs = list(ex.map(one, chunks))
+    A, B = {}, {}
+    rc, err, rc2, err2 = 0, "", 0, ""
+    for a, b, r, e, r2, e2 in outs:
+        A.update(C.split_cases(a))
+        B.update(C.split_cases(b))
+        if r != 0 and rc == 0:
+            rc, err = r, e
+        if r2 != 0 and rc2 == 0:
+            rc2, err2 = r2, e2
+    # keep the order of the request (one op text may hold several cases, e.g. a factory table and its components)
+    A = dict([(i, A[i]) for i in ids if i in A] + [(i, v) for i, v in A.items() if i not in optexts])
+    B = dict([(i, B[i]) for i in ids if i in B] + [(i, v) for i, v in B.items() if i not in optexts])
     san = ""
     if rc != 0:
         san = "harness exited with status %d\n%s" % (rc, err[-3000:])
